@@ -18,7 +18,8 @@ Section Claims.
   Variable hnull : Hsh -> bool.
   Hypothesis heqb_eq : forall a b, heqb a b = true -> a = b.
   Hypothesis branch_inj : forall a b c d, hbranch a b = hbranch c d -> a = c /\ b = d.
-  Hypothesis leafb_inj : forall k v k' v', hleafb k v = hleafb k' v' -> k = k' /\ v = v'.
+  (* H(0x00 ++ key ++ value) is injective for keys of EQUAL length only (the split point is not hashed) *)
+  Hypothesis leafb_inj : forall k v k' v', length k = length k' -> hleafb k v = hleafb k' v' -> k = k' /\ v = v'.
   Hypothesis leafb_not_branch : forall k v a b, hleafb k v <> hbranch a b.
   Hypothesis leafb_not_empty : forall k v, hleafb k v <> hempty.
   Hypothesis branch_not_empty : forall a b, hbranch a b <> hempty.
@@ -30,11 +31,13 @@ Section Claims.
   Lemma check_queries_prefix : forall kl keys qs seen,
     check_queries kl keys qs seen = VTrue ->
     forall i k q, nth_error keys i = Some k -> nth_error qs i = Some q ->
-      k = q_key q \/ height (mk q) <= common_prefix_len (to_bools k) (to_bools (q_key q)).
+      length (q_key q) = kl /\
+      (k = q_key q \/ height (mk q) <= common_prefix_len (to_bools k) (to_bools (q_key q))).
   Proof.
     induction keys as [|k0 keys IH]; intros [|q0 qs] seen Hc i k q Hk Hq; try (destruct i; discriminate).
     cbn [check_queries] in Hc.
     destruct (negb (Nat.eqb (length k0) kl)); [discriminate|].
+    destruct (Nat.eqb_spec (length (q_key q0)) kl) as [Hql|]; cbn [negb] in Hc; [|discriminate].
     assert (Hrest : (if match q_bitmap q0 with 0%N :: _ => true | _ => false end then VFalse
                      else if Nat.ltb (8 * length (q_key q0)) (length (strip_false (to_bools (q_bitmap q0)))) then VFalse
                      else if bytes_eqb k0 (q_key q0) then check_queries kl keys qs (q0 :: seen)
@@ -45,7 +48,7 @@ Section Claims.
     clear Hc. destruct (match q_bitmap q0 with 0%N :: _ => true | _ => false end); [discriminate|].
     destruct (Nat.ltb (8 * length (q_key q0)) (length (strip_false (to_bools (q_bitmap q0))))); [discriminate|].
     destruct i as [|i]; cbn [nth_error] in Hk, Hq.
-    - inversion Hk; inversion Hq; subst.
+    - inversion Hk; inversion Hq; subst. split; [reflexivity|].
       destruct (bytes_eqb k (q_key q)) eqn:E; [left; apply bytes_eqb_eq; exact E|].
       destruct (Nat.ltb_spec (common_prefix_len (to_bools k) (to_bools (q_key q))) (length (strip_false (to_bools (q_bitmap q))))); [discriminate|].
       right. unfold height. cbn [mk_wq w_bm]. exact H.
@@ -71,7 +74,7 @@ Section Claims.
     destruct (Nat.eqb_spec (length keys) (length qs)) as [Hl|]; cbn [negb] in Hv'; [|discriminate].
     destruct (check_queries kl keys qs []) eqn:Ec; try discriminate. clear Hv'.
     pose proof (check_queries_wf hempty hleafb kl keys qs [] Hl Ec q Hin) as Hwq.
-    pose proof (check_queries_prefix kl keys qs [] Ec i k q Hk Hq) as Hpre.
+    destruct (check_queries_prefix kl keys qs [] Ec i k q Hk Hq) as [Hqlen Hpre].
     set (h := height (mk q)) in *. set (kb := to_bools k). set (qb := to_bools (q_key q)).
     assert (Hp : bpath (mk q) = firstn h qb) by reflexivity. rewrite Hp in Hsn.
     assert (Hplen : length (firstn h qb) = h).
@@ -91,11 +94,13 @@ Section Claims.
     - (* leaf claim *)
       destruct nd as [|k1 v1|l r]; cbn [Tree.hash] in Hh.
       + symmetry in Hh. apply leafb_not_empty in Hh. contradiction.
-      + unfold hleaf in Hh. apply leafb_inj in Hh. destruct Hh as [Ek Evv]. subst v1.
-        assert (Hin1 : In (k1, v0 :: vs) (tomap t)) by (eapply subtree_incl; eauto; left; reflexivity).
+      + assert (Hin1' : In (k1, v1) (tomap t)) by (eapply subtree_incl; eauto; left; reflexivity).
+        pose proof (wf_keys t (8 * kl) 0 (k1, v1) Hwf Hin1') as Hlen. cbn [fst Nat.add] in Hlen.
+        unfold hleaf in Hh. apply leafb_inj in Hh; [|rewrite (from_bools_length kl k1 Hlen); symmetry; exact Hqlen].
+        destruct Hh as [Ek Evv]. subst v1.
+        assert (Hin1 : In (k1, v0 :: vs) (tomap t)) by exact Hin1'.
         assert (Hk1 : k1 = qb).
-        { pose proof (wf_keys t (8 * kl) 0 (k1, v0 :: vs) Hwf Hin1) as Hlen. cbn [fst Nat.add] in Hlen.
-          unfold qb. rewrite <- Ek. symmetry. apply (from_to_bools kl). exact Hlen. }
+        { unfold qb. rewrite <- Ek. symmetry. apply (from_to_bools kl). exact Hlen. }
         subst k1. split; [intros _; exact Hin1|]. split; [discriminate|].
         intros Hne v Hi. destruct (Hbelow v Hi) as [E1|[]]. inversion E1. congruence.
       + symmetry in Hh. apply leafb_not_branch in Hh. contradiction.
